@@ -27,6 +27,8 @@ BACKENDS = {
     'kissat': ['--external-sat-solver', 'kissat'],
     'z3': ['--z3'],
     'cvc5': ['--cvc5'],
+    'z3fpa': ['--z3', '--fpa'],
+    'cvc5fpa': ['--cvc5', '--fpa'],
 }
 LIB_PREFIXES = ('__CPROVER_contracts', 'free.', 'malloc.', 'calloc.', 'realloc.', '__CPROVER_')
 
@@ -166,6 +168,29 @@ def contract_text(f, pre, post, lemma=False, requires_extra=(), ensures_extra=()
     return '\n'.join(req + ens + ['__CPROVER_assigns(%s)' % ', '.join(assigns)])
 
 
+def uf_contract_text(f, cname):
+    """determinism abstraction: a pure function (by-value parameters only, no globals: guaranteed by the
+    extraction subset) is replaced by an uninterpreted function of its arguments. Returns (decl, contract)."""
+    args, ptys = [], []
+    for name, t in f['params']:
+        if t.ref == 'lref' or t.ptr:
+            raise Undecided('UF abstraction of %s: pointer/reference parameter' % cname)
+        if t.is_struct():
+            args.append(name + '.v')
+            ptys.append('long')
+        else:
+            args.append(name)
+            ptys.append(t.c())
+    ret = f['ret']
+    if ret.ref == 'lref' or ret.ptr or ret.base == 'void':
+        raise Undecided('UF abstraction of %s: return type' % cname)
+    rty = 'long' if ret.is_struct() else ret.c()
+    uf = '__CPROVER_uninterpreted_' + hashlib.sha1(cname.encode()).hexdigest()[:12]
+    decl = '%s %s(%s);' % (rty, uf, ', '.join(ptys))
+    rv = '__CPROVER_return_value.v' if ret.is_struct() else '__CPROVER_return_value'
+    return decl, '__CPROVER_ensures(%s == %s(%s))\n__CPROVER_assigns()' % (rv, uf, ', '.join(args))
+
+
 def harness_text(f, cname, hname, canary=True):
     lines = ['void %s(void)' % hname, '{']
     args = []
@@ -199,17 +224,26 @@ def emit_unit(unit, outdir):
     needed = [unit.pre, unit.post]
     for (g, gpre, gpost) in unit.replace:
         ex.require_mangled(g)
-        needed += [gpre, gpost]
+        if gpre != 'UF':
+            needed += [gpre, gpost]
     for p in needed:
         if p:
             ex.require_mangled(p)
     f = ex.funcs[cn]
     ex.contracts[cn] = contract_text(f, unit.pre, unit.post, unit.lemma, unit.requires_extra, unit.ensures_extra)
+    prelude = PRELUDE
+    uf_abstracted = []
     for (g, gpre, gpost) in unit.replace:
         gcn = X.cname_of(g)
-        ex.contracts[gcn] = contract_text(ex.funcs[gcn], gpre, gpost)
+        if gpre == 'UF':
+            decl, ctxt = uf_contract_text(ex.funcs[gcn], gcn)
+            prelude += decl + '\n'
+            ex.contracts[gcn] = ctxt
+            uf_abstracted.append(ex.funcs[gcn]['qual'] + '::' + (ex.funcs[gcn]['name'] or ''))
+        else:
+            ex.contracts[gcn] = contract_text(ex.funcs[gcn], gpre, gpost)
     hname = 'vf_harness'
-    text = ex.emit(extra_prelude=PRELUDE, extra_tail=harness_text(f, cn, hname, not unit.no_canary))
+    text = ex.emit(extra_prelude=prelude, extra_tail=harness_text(f, cn, hname, not unit.no_canary))
     os.makedirs(outdir, exist_ok=True)
     cpath = os.path.join(outdir, 'unit.c')
     with open(cpath, 'w') as fh:
@@ -219,7 +253,7 @@ def emit_unit(unit, outdir):
         'src': ex.fn_src.get(cn), 'functions': {c: ex.fn_src.get(c) for c in ex.funcs},
         'loops': ex.loops.get(cn, 0), 'dropped': dict(ex.dropped), 'externals': sorted(ex.externals),
         'sideeffect_args': ex.sideeffect_args, 'replaced': [X.cname_of(g) for g, _, _ in unit.replace],
-        'qualname': f['qual'] + '::' + (f['name'] or ''), 'type': f['type'],
+        'qualname': f['qual'] + '::' + (f['name'] or ''), 'type': f['type'], 'uf_abstracted': uf_abstracted,
     }
     with open(os.path.join(outdir, 'meta.json'), 'w') as fh:
         json.dump(meta, fh, indent=1)
